@@ -6,6 +6,8 @@ blocks.  `StatsRecorder{Cache: inner}` (`recorderOps o`, `π = Prod.fst`) is the
 Get/Put and read by nobody.  No contract, no invariant, no hypothesis on the code variant or the file.
 -/
 import Hts.Model.CachedReader
+import Hts.Lemmas.CachedReader
+import Hts.Lemmas.CacheSum
 namespace Hts.Model.CachedReader
 open Hts.Model.Cache Hts.Spec.CacheContract
 
@@ -376,4 +378,113 @@ theorem uncached_mapC (ops : List (Op τ)) :
   cases op <;> rfl
 
 end
+/-! ### homomorphisms around sums of cache kinds -/
+
+section Sum
+variable {σ₁ σ₂ ρ : Type}
+
+/-- a kind is embedded in every sum it is a summand of -/
+theorem inl_hom (o₁ : CacheOps σ₁) (o₂ : CacheOps σ₂) : Hom o₁ (sumOps o₁ o₂) Sum.inl where
+  put _ _ _ _ := rfl
+  get _ _ _ := rfl
+  peek _ _ _ := rfl
+  held _ := rfl
+
+theorem inr_hom (o₁ : CacheOps σ₁) (o₂ : CacheOps σ₂) : Hom o₂ (sumOps o₁ o₂) Sum.inr where
+  put _ _ _ _ := rfl
+  get _ _ _ := rfl
+  peek _ _ _ := rfl
+  held _ := rfl
+
+/-- two kinds that are both "`o` plus bookkeeping": so is their sum -/
+theorem sum_hom {o₁ : CacheOps σ₁} {o₂ : CacheOps σ₂} {o : CacheOps ρ} {π₁ : σ₁ → ρ} {π₂ : σ₂ → ρ}
+    (H₁ : Hom o₁ o π₁) (H₂ : Hom o₂ o π₂) : Hom (sumOps o₁ o₂) o (Sum.elim π₁ π₂) where
+  put h s id hint := by
+    cases s with
+    | inl a =>
+      simp only [Sum.elim_inl, sumOps, H₁.put, Option.map_map]
+      cases o₁.put h a id hint <;> rfl
+    | inr b =>
+      simp only [Sum.elim_inr, sumOps, H₂.put, Option.map_map]
+      cases o₂.put h b id hint <;> rfl
+  get h s k := by
+    cases s with
+    | inl a => exact H₁.get h a k
+    | inr b => exact H₂.get h b k
+  peek h s k := by
+    cases s with
+    | inl a => exact H₁.peek h a k
+    | inr b => exact H₂.peek h b k
+  held s := by
+    cases s with
+    | inl a => exact H₁.held a
+    | inr b => exact H₂.held b
+
+theorem id_hom (o : CacheOps σ) : Hom o o id where
+  put h s id' hint := by
+    show o.put h s id' hint = _
+    cases o.put h s id' hint <;> rfl
+  get _ _ _ := rfl
+  peek _ _ _ := rfl
+  held _ := rfl
+
+/-- the admissibility condition on histories goes along a homomorphism -/
+theorem opOK_hom {o' : CacheOps τ} {o : CacheOps σ} {π : τ → σ} (H : Hom o' o π) {wf' : τ → Prop} {wf : σ → Prop}
+    (hwf : ∀ s, wf' s → wf (π s)) (op : Op τ) (ok : OpOK o' wf' op) : OpOK o wf (op.mapC π) := by
+  cases op with
+  | setCache c h =>
+    cases c with
+    | none => trivial
+    | some c => exact ⟨hwf c ok.1, by rw [H.held]; exact ok.2⟩
+  | _ => trivial
+
+/-- the part of a history over `σ₁ ⊕ σ₂` that lives in `σ₁` (objects of the other kind are dropped) -/
+def Op.left : Op (σ₁ ⊕ σ₂) → Op σ₁
+  | .seek a b => .seek a b
+  | .read n => .read n
+  | .readByte => .readByte
+  | .setCache (some (.inl c)) h => .setCache (some c) h
+  | .setCache _ h => .setCache none h
+  | .reattach i h => .reattach i h
+  | .setBlocked b => .setBlocked b
+
+def Op.right : Op (σ₁ ⊕ σ₂) → Op σ₂
+  | .seek a b => .seek a b
+  | .read n => .read n
+  | .readByte => .readByte
+  | .setCache (some (.inr c)) h => .setCache (some c) h
+  | .setCache _ h => .setCache none h
+  | .reattach i h => .reattach i h
+  | .setBlocked b => .setBlocked b
+
+theorem left_inl (ops : List (Op (σ₁ ⊕ σ₂)))
+    (hl : ∀ c h, Op.setCache (some c) h ∈ ops → ∃ a, c = Sum.inl a) :
+    (ops.map Op.left).map (Op.mapC Sum.inl) = ops := by
+  rw [List.map_map]
+  conv => rhs; rw [← List.map_id ops]
+  apply List.map_congr_left
+  intro op hop
+  cases op with
+  | setCache c h =>
+    cases c with
+    | none => rfl
+    | some c => obtain ⟨a, rfl⟩ := hl c h hop; rfl
+  | _ => rfl
+
+theorem right_inr (ops : List (Op (σ₁ ⊕ σ₂)))
+    (hl : ∀ c h, Op.setCache (some c) h ∈ ops → ∃ b, c = Sum.inr b) :
+    (ops.map Op.right).map (Op.mapC Sum.inr) = ops := by
+  rw [List.map_map]
+  conv => rhs; rw [← List.map_id ops]
+  apply List.map_congr_left
+  intro op hop
+  cases op with
+  | setCache c h =>
+    cases c with
+    | none => rfl
+    | some c => obtain ⟨a, rfl⟩ := hl c h hop; rfl
+  | _ => rfl
+
+end Sum
+
 end Hts.Model.CachedReader
